@@ -155,6 +155,13 @@ pub fn tokenize_expression(input: &str) -> Result<Vec<Token>, CompilerError> {
                 let mut brace_depth = 0usize;
                 while end < chars.len() {
                     match chars[end] {
+                        // (a string printed inside a string inside a string ...)
+                        '{' if brace_depth >= super::MAX_NESTING_DEPTH => {
+                            return Err(CompilerError::invalid_source(format!(
+                                "nesting too deep: more than {} levels of braces in a string",
+                                super::MAX_NESTING_DEPTH
+                            )));
+                        }
                         '{' => brace_depth += 1,
                         '}' if brace_depth > 0 => brace_depth -= 1,
                         '"' if brace_depth == 0 => break,
@@ -239,8 +246,41 @@ pub fn tokenize_expression(input: &str) -> Result<Vec<Token>, CompilerError> {
     Ok(tokens)
 }
 
+/// How many binary operators one expression may have: a chain `a + b + c ...` nests
+/// its operands to the left as deep as it is long, and all later passes follow
+/// that depth (the nesting of parentheses has its own limit, `MAX_NESTING_DEPTH`).
+const MAX_EXPRESSION_OPERATORS: usize = 100;
+
 pub fn parse_expression(input: &str) -> Result<Expression, CompilerError> {
     let tokens = tokenize_expression(input)?;
+    let operators = tokens
+        .iter()
+        .filter(|token| match token {
+            Token::Plus
+            | Token::Minus
+            | Token::Star
+            | Token::Slash
+            | Token::Percent
+            | Token::EqualEqual
+            | Token::NotEqual
+            | Token::Greater
+            | Token::GreaterEqual
+            | Token::Less
+            | Token::LessEqual
+            | Token::AndAnd
+            | Token::OrOr
+            | Token::Has
+            | Token::Hasnt
+            | Token::Caret => true,
+            Token::Ident(name) => name == "mod",
+            _ => false,
+        })
+        .count();
+    if operators > MAX_EXPRESSION_OPERATORS {
+        return Err(CompilerError::invalid_source(format!(
+            "expression too long: more than {MAX_EXPRESSION_OPERATORS} operators"
+        )));
+    }
     let mut parser = ExpressionParser::new(tokens);
     let expression = parser.parse_expression()?;
 
@@ -508,6 +548,8 @@ impl ExpressionParser {
     }
 
     fn parse_unary(&mut self) -> Result<Expression, CompilerError> {
+        // (parentheses, arguments and unary operators lead back here)
+        let _nesting = super::NestingGuard::enter()?;
         if self.match_token(&Token::Bang) {
             let expr = self.parse_unary()?;
             return Ok(Expression::Not(Box::new(expr)));
